@@ -24,6 +24,7 @@ func checkC08(c *Ctx) {
 	ruleReadNUsed(c)
 	ruleReadErrKept(c)
 	ruleLineComplete(c)
+	ruleScanStart(c)
 	ruleBufForward(c)
 	ruleSameMachine(c)
 	ruleCtor(c)
@@ -32,6 +33,13 @@ func checkC08(c *Ctx) {
 
 func init() {
 	addControls(
+		Control{Name: "neg-scan-resumes-at-pending-cr", Props: []string{"C08", "C01", "C04"}, File: "parse.go", Negative: true,
+			Old: "\teolEnd := -1\n\tfor {", New: "\teolEnd := -1\n\tscanStart := p.i\n\tfor {",
+			Edits: [][2]string{
+				{"\t\tif i := bytes.IndexAny(p.buf[p.i:], \"\\r\\n\"); i >= 0 {\n\t\t\teolStart := p.i + i", "\t\tif i := bytes.IndexAny(p.buf[scanStart:], \"\\r\\n\"); i >= 0 {\n\t\t\teolStart := scanStart + i"},
+				{"\t\t\t\t// Carriage return right before EOF.\n\t\t\t\teolEnd = len(p.buf)\n\t\t\t\tbreak\n\t\t\t}\n\t\t}\n", "\t\t\t\t// Carriage return right before EOF.\n\t\t\t\teolEnd = len(p.buf)\n\t\t\t\tbreak\n\t\t\t}\n\t\t\tscanStart = eolStart\n\t\t} else {\n\t\t\tscanStart = len(p.buf)\n\t\t}\n"},
+			},
+			Why: "the correct version of the do-not-rescan optimisation: resume at the pending CR, or past the bytes in which nothing was found"},
 		Control{Name: "neg-readline-grow-with-append", Props: []string{"C01", "C08", "C04"}, File: "parse.go", Negative: true,
 			Old: "\t\t\tnewbuf := make([]byte, len(p.buf), newSize)\n\t\t\tcopy(newbuf, p.buf)\n\t\t\tp.buf = newbuf", New: "\t\t\tp.buf = append(make([]byte, 0, newSize), p.buf...)",
 			Why: "the buffer grows into a fresh allocation, written with append"},
